@@ -418,8 +418,9 @@ mutual
     | .elem e rest => e.toStr ++ rest.toStr
 end
 
-/-- header written by `Xml::toString` -/
-def xmlHeader : Bytes := "<?xml version=\"1.0\" encoding=\"UTF-8\"?>\n".toUTF8.toList
+/-- `<?xml version="1.0" encoding="UTF-8"?>\n` -/
+def xmlHeader : Bytes :=
+  [60, 63, 120, 109, 108, 32, 118, 101, 114, 115, 105, 111, 110, 61, 34, 49, 46, 48, 34, 32, 101, 110, 99, 111, 100, 105, 110, 103, 61, 34, 85, 84, 70, 45, 56, 34, 63, 62, 10]
 
 def docToStr (e : Elem) : Bytes := xmlHeader ++ e.toStr
 
